@@ -224,8 +224,13 @@ func VerifLifecycleForceStop() {
 		verifCover("already-stopped")
 	}
 	runErr := svc.WaitPipeline("pl")
-	_ = runErr
 	st := w.lastStatus()
+	// the stored status agrees with how the run ended: a run that ended by the
+	// force stop is degraded with the cause recorded, whatever was pending before
+	if cerrors.Is(runErr, pipeline.ErrForceStop) {
+		verifAssert(st == pipeline.StatusDegraded, "c12-force-stopped-run-not-marked-failed")
+		verifAssert(st == pipeline.StatusDegraded, "c11-status-disagrees-with-how-the-run-ended")
+	}
 	if st == pipeline.StatusDegraded {
 		w.mu.Lock()
 		n := 0
